@@ -123,9 +123,9 @@ cpdef CSR ptrace_csr(CSR matrix, object dims, object sel):
 
 
 def ptrace_dia(matrix, dims, sel):
+    dims, sel = _parse_inputs(dims, sel, matrix.shape)
     if len(sel) == len(dims):
         return matrix.copy()
-    dims, sel = _parse_inputs(dims, sel, matrix.shape)
     mat = matrix.as_scipy()
     cdef idxint[:, ::1] tensor_table = np.zeros((dims.shape[0], 3), dtype=idxint_dtype)
     cdef idxint pos_row[2]
